@@ -1,3 +1,16 @@
 from props.common import run_all as run  # noqa: F401
 
-META = {"claimed": False, "reason": "check not built yet (work in progress; the technique applies, see DESIGN.md section 5)"}
+META = {'claimed': True,
+ 'title': 'Random generator is HMAC_DRBG(SHA-256) over OS entropy, reseeded on schedule',
+ 'level_text': "proof: crypto_entropy.c (statics, instantiate, update, reseed, generate, the 65536-byte chunk loop) and util/entropy.c's read loop are modelled with constants regenerated from the C "
+               '(proved to be interval 256, max 65536, seed 48/32, separators 0/1, ...). For ALL request sequences, ALL initial statics and ALL entropy oracles the model never aborts and its '
+               'per-call results, final (Key, V, reseed_counter, instantiated) and oracle consumption equal those of the SP 800-90A 10.1.2 HMAC_DRBG machine (C11_drbg_refines_spec, parametric in '
+               "HMAC; C11_generator_is_hmac_drbg_sha256 with the HMAC hypotheses discharged by C01's theorems for alg/sha256.c); a request of n bytes makes exactly ceil(n/65536) generate calls "
+               '(C11_generate_count); fresh entropy is mixed in exactly before generate calls 257, 513, ... (C11_reseed_schedule); every generate ran seeded with reseed_counter <= 256, entropy reads '
+               "are the oracle's answers in order, a call fails iff one of its entropy reads failed, a failed instantiation leaves the statics untouched, and success implies a successful 48-byte "
+               'instantiate in the history (C11_no_unseeded_output, C11_call_facts). 13 theorems, unbounded in history. Bound to the C by the correspondence run (entropy source interposed with '
+               'scripted bytes and failures at every position; request sizes around 65536 multiples; > 256 generate calls; output = model = spec).',
+ 'level_note': 'Trusted: Coq kernel; hand-written model bound by differential execution; the transcription of SP 800-90A 10.1.2 in Crypto/DrbgSpec.v; the OS entropy source is an oracle (list of read '
+               'answers). Print Assumptions: closed under the global context.',
+ 'trusted_base': ['transcription of SP 800-90A HMAC_DRBG in coq/Crypto/DrbgSpec.v', 'interposed entropy source in the driver'],
+ 'assumptions': []}
